@@ -1202,6 +1202,34 @@ func (env *SpecEnv) call(e *Expr) (SpecVal, error) {
 			return SpecVal{T: Select(as[0].T, x)}, nil
 		}
 		return SpecVal{T: Store(as[0].T, x, True)}, nil
+	case "bytes":
+		// bytes(s): []byte(s), the same function of the string value that the code's conversion is
+		as, err := evalArgs()
+		if err != nil || len(as) != 1 || as[0].T.Sort != SStr {
+			return SpecVal{}, fmt.Errorf("bytes(s): %v", err)
+		}
+		return SpecVal{T: vc.strBytes(env.cur, as[0].T), Ty: types.NewSlice(types.Typ[types.Byte])}, nil
+	case "zero":
+		// zero(T): the zero value of type T
+		if len(args) != 1 {
+			return SpecVal{}, fmt.Errorf("zero(T)")
+		}
+		tn, ok := exprTypeName(args[0])
+		if !ok {
+			return SpecVal{}, fmt.Errorf("zero: argument must be a type")
+		}
+		ty, err := env.resolveTypeName(tn)
+		if err != nil {
+			return SpecVal{}, err
+		}
+		z, err := vc.zeroValue(ty)
+		if err != nil {
+			return SpecVal{}, err
+		}
+		return SpecVal{T: z, Ty: ty}, nil
+	case "effectfree":
+		// effectfree(f): declaration only (picked up syntactically when a contract is applied)
+		return SpecVal{T: True}, nil
 	case "preexisting":
 		// preexisting(p): p points into an object that existed when the function under
 		// verification was entered (what is reachable from its inputs)
